@@ -318,6 +318,7 @@ class C22(Check):
         res = ShardResult()
         if not jitlab.shard_enabled(shard):
             res.dropped["shard-not-selected(VERIF_ONLY_SHARDS)"] += 1
+            res.exhaustive["all-shards-run"] = False
             return res
         rng = random.Random(seed)
         hs = []
